@@ -798,6 +798,7 @@ pub fn gen_main(args: &[String]) -> i32 {
         "text_classes" => crate::gen2::suite_text_classes(&mut out, tier, &mut rng),
         "rfc_messages" => crate::gen2::suite_rfc_messages(&mut out, tier, &mut rng),
         "record_product" => crate::gen2::suite_record_product(&mut out, tier, &mut rng),
+        "value_products" => crate::gen2::suite_value_products(&mut out, tier, &mut rng),
         "octet_sweep" => crate::gen2::suite_octet_sweep(&mut out, tier, &mut rng),
         "history" => crate::gen2::suite_history(&mut out, tier, &mut rng),
         "ignored" => crate::gen2::suite_ignored(&mut out, tier, &mut rng),
